@@ -239,7 +239,7 @@ func init() {
 		ID:    "C10",
 		Level: "exploration",
 		Rule: "seeded single-RPC scenarios with a per-service limit L drawn from 16 B .. 1 MiB and one large message (request or response direction) whose size is placed at L/2, L-16, L-1, L, L+1, L+16, 2L, 10L, 100L " +
-			"(a quarter of the response cases under a Content-Length that understates the body) with zero / text / random fill (compression ratios from 1:1 to about 1000:1 through real gzip and zlib), over every client form x target x codec pair x compression pair (re-frame, re-encode, buffer-to-measure, unary buffering). " +
+			"(a quarter of the response cases under a Content-Length that understates the body; a fifth with a compressed form padded to just over L or beyond the bound that inflates to a small message) with zero / text / random fill (compression ratios from 1:1 to about 1000:1 through real gzip and zlib), over every client form x target x codec pair x compression pair (re-frame, re-encode, buffer-to-measure, unary buffering). " +
 			"oracle: sizes of every representation on the path are computed in-process; all fit => the RPC must not fail with resource_exhausted; some exceed => it fails with resource_exhausted (and the message is not handed over) or was streamed through intact; " +
 			"always: no pooled buffer grows by more than 8L+64KiB during the RPC and no single decompression emits more than that (buffer-pool hook and decompressor wrapper: deterministic accounting, not RSS). " +
 			"distinct = (direction, form>target, request path, response path, L, schedule hash); non-trivial = transcoder in the data path and a response produced",
